@@ -635,6 +635,15 @@ func processPluginResponse(capabilitiesToVerify []pluginframework.Capability, re
 		return err
 	}
 
+	// attribute keys are strings in the plugin protocol: a critical attribute
+	// with any other key type (COSE labels can be integers) cannot be handed
+	// to the plugin, so nothing can have processed it
+	for _, attr := range outcome.EnvelopeContent.SignerInfo.SignedAttributes.ExtendedAttributes {
+		if _, ok := attr.Key.(string); !ok && attr.Critical {
+			return fmt.Errorf("extended critical attribute %v is not supported: only attributes with a string key can be processed by the verification plugin %q", attr.Key, verificationPluginName)
+		}
+	}
+
 	// verify all extended critical attributes are processed by the plugin
 	for _, attr := range getNonPluginExtendedCriticalAttributes(&outcome.EnvelopeContent.SignerInfo) {
 		if !slices.ContainsAny(response.ProcessedAttributes, attr.Key) {
